@@ -61,6 +61,8 @@ def plan(tier):
            stubs=["tagging stubs for both kernels", "in-memory FS"], symbolic="shape selectors"),
         CH("annotations", "harness.c09", "annotations", ap, timeout=t, desc="@PythonName/@PythonModule iff the name differs",
            stubs=["conversion kernel -> identity / tagging stub", "in-memory FS"], symbolic="shape selectors + stub mode"),
+        CH("relational_inherited", "harness.c09", "relational_inherited", [f"0:{k}" for k in range(5)], timeout=t,
+           desc="members inlined from a private ancestor: same recovered names under both settings (snake_case / camelCase look-alikes)"),
         CH("relational", "harness.c09", "relational", ap, timeout=t, desc="outputs under both settings agree up to identifiers",
            stubs=["in-memory FS"], symbolic="shape selectors + name style"),
     ]
